@@ -49,6 +49,13 @@ Theorem C13_total_wp_partial : forall fx unquote buf, nopanic_suffixes false buf
 Proof. intros fx unquote buf H. exact (wp_run_safe false fx unquote buf H). Qed.
 Print Assumptions C13_total_wp_partial.
 
+(* the same, with the hypothesis on the varints alone *)
+Theorem C13_total_wp_partial_varints : forall fx unquote buf,
+  (forall k idx uln, unmarshal_uint (skipn k buf) = Ok (idx, uln) -> (Z.of_N uln + idx < two63)%Z) ->
+  safe (wp_run false fx unquote buf).
+Proof. intros fx unquote buf H. exact (wp_run_safe false fx unquote buf (nps_of_small_varints buf H)). Qed.
+Print Assumptions C13_total_wp_partial_varints.
+
 Theorem C13_total_wp_guarded : forall fx unquote buf, safe (wp_run true fx unquote buf).
 Proof. intros fx unquote buf. exact (wp_run_safe true fx unquote buf (nps_guarded buf)). Qed.
 Print Assumptions C13_total_wp_guarded.
